@@ -8,7 +8,7 @@
 (*   GEN_OUT     output file (JSON array of [fam, g, stopping, acyclic])   *)
 (* Sampling uses TLC's RandomElement and is reproducible under -seed.      *)
 (***************************************************************************)
-EXTENDS Conditioning, Json, IOUtils
+EXTENDS Transform, Json, IOUtils
 
 K      == atoi(IOEnv.GEN_K)
 Family == IOEnv.GEN_FAMILY
@@ -68,7 +68,7 @@ StopFamily == SelectSeq(StopFamilyRaw, LAMBDA d : d.stopping)
 (*   targets are chosen among: dead sinks D1, D2 / live L / win W / self   *)
 (***************************************************************************)
 DeadGames ==
-    LET n == 7   \* 1 init, 2 centre, 3 live, 4 dead1, 5 dead2, 6 lose(sink) 7 win
+    LET n == 7   \* 1 init, 2 centre, 3 live, 4 dead1 (sink), 5 dead2 (Player 1), 6 lose (sink), 7 win
         Tg == {3, 4, 5, 7, 2}           \* live, dead1, dead2, win, self
         rows(k) == [1..k -> Tg]
         mk(co, io, k, tg, wv, cr) ==
@@ -81,12 +81,78 @@ DeadGames ==
                                      ELSE Tr(Lab[j], 0, tg[j])],
                      <<Tr("", 1, 7), Tr("", 1, 6)>>,
                      <<Tr("", 1, 4)>>,
-                     <<Tr("x", 0, 5), Tr("y", 0, 4)>>,
+                     <<Tr("x", 0, 4), Tr("y", 0, 6)>>,
                      <<Tr("", 1, 6)>>,
                      <<Tr("", 1, 7)>> >>,
            final |-> <<7>>]
     IN  { mk(co, io, k, tg, wv, cr) :
             co \in {P1, PR}, io \in {PR, P2, P1}, k \in {2, 3, 4},
             tg \in [1..4 -> Tg], wv \in {<<1,1,1,1>>, <<1,2,1,3>>, <<2,1,3,1>>}, cr \in {0, 1} }
+
+-----------------------------------------------------------------------------
+(* Histories (C10): call scripts of length <= 3 over {same object A, fresh  *)
+(* object} x {prune, no prune} on stopping games.                           *)
+Scripts == UNION {[1..k -> [obj : {"A", "new"}, prune : BOOLEAN]] : k \in 1..3}
+
+HistBase(i) ==
+    IF i % 3 = 0 THEN RandomElement(DeadGames) ELSE StopGame(SizeOf(i))
+HistFamilyRaw ==
+    [i \in 1..K |-> LET g == TLCEval(HistBase(i))
+                    IN  TLCEval([fam |-> "hist", g |-> g, stopping |-> IsStopping(g),
+                                 acyclic |-> AcyclicOn(g, States(g)),
+                                 calls |-> RandomElement(Scripts)])]
+HistFamily == SelectSeq(HistFamilyRaw, LAMBDA d : d.stopping)
+
+(* Presentations (C13): a game, a random renumbering / reordering /        *)
+(* renaming, and the transformed game.                                     *)
+Renamings == { <<>>,
+               << <<"a", "b">>, <<"b", "a">> >>,
+               << <<"a", "zz">>, <<"b", "a1">>, <<"c", "_c">>, <<"x", "y">>, <<"y", "x">> >> }
+RandRel(g) ==
+    LET p == IF g.n = 1 THEN <<>> ELSE RandomElement(Permutations(2..g.n))
+    IN  [kind |-> "perm",
+         pi |-> [s \in 1..g.n |-> IF s = 1 THEN 1 ELSE p[s]],
+         rho |-> [s \in 1..g.n |-> RandomElement(Permutations(1..Len(g.tr[s])))],
+         alpha |-> RandomElement(Renamings)]
+PermBase(i) ==
+    IF i % 3 = 0 THEN RandomElement(DeadGames)
+    ELSE IF i % 3 = 1 THEN StopGame(SizeOf(i)) ELSE RandGame(SizeOf(i))
+PermFamily ==
+    [i \in 1..K |-> LET g == TLCEval(PermBase(i))
+                        rel == TLCEval(RandRel(g))
+                    IN  TLCEval([fam |-> "perm", g |-> g, stopping |-> IsStopping(g),
+                                 acyclic |-> AcyclicOn(g, States(g)),
+                                 rel |-> rel, h |-> TransformGame(g, rel)])]
+
+-----------------------------------------------------------------------------
+(* Ties: the initial state chooses between X and Y whose values are equal   *)
+(* as rationals but are computed along different arithmetic paths (and an   *)
+(* optional third action that is clearly better or worse).                  *)
+(*   1 chooser, 2 X, 3 Y, 4 Z, 5 aux, 6 lose, 7 win                         *)
+(***************************************************************************)
+TieGames ==
+    LET n == 7
+        \* pairs of rows <<X, Y>> with equal value p of reaching win (rest: lose)
+        XY == { << <<Tr("", 1, 7), Tr("", 2, 7), Tr("", 3, 6)>>,  <<Tr("", 1, 7), Tr("", 1, 6)>> >>,
+                << <<Tr("", 1, 7), Tr("", 1, 7), Tr("", 1, 6)>>,  <<Tr("", 2, 7), Tr("", 1, 6)>> >>,
+                << <<Tr("", 1, 6), Tr("", 2, 7)>>,                <<Tr("", 2, 7), Tr("", 1, 6)>> >>,
+                << <<Tr("", 3, 2), Tr("", 1, 7), Tr("", 1, 6)>>,  <<Tr("", 1, 7), Tr("", 1, 6)>> >>,   \* cycle (K1 witness)
+                << <<Tr("", 1, 5), Tr("", 1, 6)>>,                <<Tr("", 1, 7), Tr("", 3, 6)>> >>,   \* via aux (1/2 * 1/2)
+                << <<Tr("", 1, 7)>>,                              <<Tr("", 2, 7), Tr("", 3, 7)>> >>,   \* both 1
+                << <<Tr("", 1, 6)>>,                              <<Tr("", 2, 6), Tr("", 1, 6)>> >> }  \* both 0
+        Zrow == { <<Tr("", 1, 6)>>, <<Tr("", 1, 7)>>, <<Tr("", 1, 7), Tr("", 9, 6)>>, <<Tr("", 9, 7), Tr("", 1, 6)>> }
+        mk(o, xy, three, z, rw) ==
+          [n |-> n,
+           owner  |-> <<o, PR, PR, PR, PR, PR, PR>>,
+           reward |-> <<0, rw[1], rw[2], 1, 0, 0, 0>>,
+           tr |-> << IF three THEN <<Tr("x", 0, 2), Tr("z", 0, 4), Tr("y", 0, 3)>>
+                     ELSE <<Tr("x", 0, 2), Tr("y", 0, 3)>>,
+                     xy[1], xy[2], z,
+                     <<Tr("", 1, 7), Tr("", 1, 6)>>,
+                     <<Tr("", 1, 6)>>, <<Tr("", 1, 7)>> >>,
+           final |-> <<7>>]
+    IN  { mk(o, xy, three, z, rw) :
+            o \in {P1, P2}, xy \in XY, three \in BOOLEAN, z \in Zrow,
+            rw \in {<<0, 0>>, <<1, 1>>, <<1, 2>>, <<2, 1>>} }
 
 =============================================================================
